@@ -116,7 +116,15 @@ def _prune_cache(prefix, keep=14):
         return
     items = [os.path.join(CACHE, f) for f in os.listdir(CACHE) if f.startswith(prefix) and "." not in f]
     items.sort(key=lambda p: os.path.getmtime(p), reverse=True)
+    now = time.time()
     for p in items[keep:]:
+        # never remove a binary touched in the last three hours: a concurrent check (several may run
+        # against different trees at once) may still be executing it
+        try:
+            if now - os.path.getmtime(p) < 3 * 3600:
+                continue
+        except OSError:
+            continue
         try:
             if os.path.isdir(p):
                 shutil.rmtree(p)
